@@ -11,7 +11,7 @@ RULE = ("(a) random interior (s,z) per cone structure incl. mnl, then 1..30 upda
         "(c) conelp/coneqp solves with an observing kktsolver.  class signature = monitor x cone shape class x factory x storage x history class")
 ASSUMPTIONS = ["W is reconstructed from (dnl, d, beta, v, r) by its documented definition; di, dnli, rti are checked against it",
                "identities are measured relative to the norms of the factors (threshold 1e-9 for random scalings, scaled by the condition of W in converging histories)"]
-REQUIRED_COUNTERS = ["a.compute", "a.update", "a.history>=10", "b.structurally-sparse", "b.structurally-sparse-singular-S", "b.ldl", "b.ldl2", "b.chol", "b.chol2", "b.qr", "b.chol2.singular-branch",
+REQUIRED_COUNTERS = ["a.compute", "a.update", "a.history>=10", "b.structurally-sparse", "b.structurally-sparse-singular-S", "b.zero-pattern-in-G", "b.ldl", "b.ldl2", "b.chol", "b.chol2", "b.qr", "b.chol2.singular-branch",
                      "b.chol2.refactor", "b.sparse", "b.mnl", "b.H", "b.H-lower-storage", "b.interleaved", "c.W-observed", "c.frame-identity-checked",
                      "c.conelp", "c.coneqp"]
 
@@ -201,6 +201,9 @@ def run(ctx):
                 extra = 0
                 dims = Dims(n - kdrop + rng.randint(0, 2))
                 ctx.count("b.structurally-sparse-singular-S")
+        zero_pattern = (not structural) and rng.random() < 0.3
+        if zero_pattern:
+            ctx.count("b.zero-pattern-in-G")
         mnl = dims.mnl
         cdims = Dims(dims.l, dims.q, dims.s)       # linear part
         # GG = [Df; G] of full column rank together with A and H
@@ -222,6 +225,10 @@ def run(ctx):
             else:
                 GGp = gp.rand_sv_matrix(rng, dims.Np, n)
                 A = gp.rand_sv_matrix(rng, p, n, 0.5, 2.0)
+                if zero_pattern:
+                    # structural zeros in G for ALL cone types (the scaled columns W^-T G[:,k] of 'q' and 's' blocks are
+                    # dense although G[:,k] is not): code that relies on the sparsity pattern of G surviving the scaling
+                    GGp = GGp * np.array([[1.0 if rng.random() < 0.5 else 0.0 for _ in range(n)] for _ in range(dims.Np)]).reshape(dims.Np, n)
             B = gp.rand_sv_matrix(rng, n, r, 0.5, 2.0) if r else np.zeros((n, 0))
             stack = np.vstack([B.T, GGp, A])
             if stack.shape[0] >= n and np.linalg.svd(stack, compute_uv=False)[-1] >= 0.2 and \
@@ -232,7 +239,7 @@ def run(ctx):
         GG = gp.unpack_iso(GGp, dims)
         Df, G = GG[:mnl], GG[mnl:]
         H = B @ B.T if withH else None
-        sparse = rng.random() < 0.4 or structural
+        sparse = rng.random() < 0.4 or structural or (zero_pattern and rng.random() < 0.8)
         if withH and structural:
             H = np.diag(np.diag(H))          # keep S = H + G'W^-2 G sparse
             if np.linalg.svd(np.vstack([np.sqrt(np.abs(H)), GGp, A]), compute_uv=False)[-1] < 0.2:
